@@ -254,7 +254,7 @@ class C01(Prop):
     id = "C01"
     anchored = ["src/pewlib/io/npz.py", "src/pewlib/calibration.py", "src/pewlib/config.py", "src/pewlib/srr/config.py",
                 "src/pewlib/laser.py", "src/pewlib/srr/srr.py"]
-    cases = {"quick": 260, "thorough": 5000}
+    cases = {"quick": 600, "thorough": 24000}
     rule = ("random Laser / spot / SRR lasers (equal-shape layers, shapes from 1x1, 1-8 elements with unicode names incl. tabs, "
             "combining marks, non-BMP, >32 chars; 15 field dtypes; NaN payloads/inf/-0.0 data), calibrations with 0..6 points, "
             "half-NaN rows, all seven built-in weightings and custom weights, differing lengths, info dicts incl. empty "
@@ -386,7 +386,7 @@ class C01(Prop):
         cls = cls or rng.choice(["laser", "laser", "spot", "srr", "srr"])
         shape = [rng.choice([1, 1, 2, 3, 5]), rng.choice([1, 2, 3, 4, 7])]
         nlayers = rng.choice([2, 2, 3, 4]) if cls == "srr" else 1
-        nel = rng.choice([1, 1, 2, 2, 3, 4, 5, 8])
+        nel = rng.choice([1, 1, 2, 2, 3, 4, 5, 6, 7, 8])
         used = set()
         size = shape[0] * shape[1]
         elements = []
@@ -474,6 +474,8 @@ class C01(Prop):
         yield {**base, "cals": [[0, {**cal0, "unit": "u" * 33}]], "excluded": "unit > 32"}
         yield {**base, "cls": "srr", "shapes": [[1, 1], [1, 1]], "elements": [el("A", ">f8", n=2)], "config": srr,
                "excluded": "SRR big-endian field"}
+        # a tab in the file stem becomes the Name and turns into a space one generation later
+        yield {**base, "stem": "a\tb", "chain": 2, "excluded": "tab in file stem"}
 
     # ------------------------------------------------------------------ evaluation
     def features(self, case, obj):
